@@ -373,6 +373,9 @@ def k_render_field(R, maxq, props):
         rsel, vsel = z3.BitVec(f'rdsel{n}', 8), z3.BitVec(f'vdsel{n}', 8)
         spell = lambda sel: z3.If(sel == 0, z3.StringVal('Serialize'), z3.If(sel == 1, z3.StringVal('serde::Serialize'), z3.If(sel == 2, z3.StringVal('Debug, PartialEq'), z3.StringVal('Clone'))))
         rderives, vderives = spell(rsel), spell(vsel)
+        # the serde path option: a symbolic choice among spellings of the same crate
+        psel = z3.BitVec(f'serdesel{n}', 8)
+        serde_spelling = z3.If(psel == 0, z3.StringVal(':: serde'), z3.If(psel == 1, z3.StringVal('serde'), z3.StringVal('graphql_client :: _private :: serde')))
         has_rd, has_vd = z3.BitVec(f'hasrd{n}', 8), z3.BitVec(f'hasvd{n}', 8)
 
         def setup(st, B, qs=qs, n=n):
@@ -382,7 +385,7 @@ def k_render_field(R, maxq, props):
                 st.pc.append(z3.Not(z3.And(a == req, b == req)))
             for x in (has_g, dep1, dep2, has_strat, has_rd, has_vd):
                 st.pc.append(z3.ULT(x, 2))
-            st.pc += [z3.ULT(rsel, 4), z3.ULT(vsel, 4)]
+            st.pc += [z3.ULT(rsel, 4), z3.ULT(vsel, 4), z3.ULT(psel, 3)]
             st.pc.append(z3.ULT(strat, len(strategies)))
             # representation invariant of the ExpandedField values calculate_selection builds (3 sites):
             # spread fields are flattened, keyless, `[Required]`, never deprecated and named after a fragment;
@@ -403,7 +406,7 @@ def k_render_field(R, maxq, props):
                              flatten=flatten,
                              deprecation=SymEnum(dep1, {0: (), 1: (SymEnum(dep2, {0: (), 1: (StrV(reason),)}),)}),
                              boxed=boxed)
-            opts = options_value(B, skip_serializing_none=skip,
+            opts = options_value(B, skip_serializing_none=skip, serde_path=Opaque('syn::Path', serde_spelling if 'C09' in props else 'serde'),
                                  response_derives=SymEnum(has_rd, {0: (), 1: (StrV(rderives),)}), variables_derives=SymEnum(has_vd, {0: (), 1: (StrV(vderives),)}),
                                  deprecation_strategy=SymEnum(has_strat, {0: (), 1: (SymEnum(strat, {i: () for i in range(len(strategies))}),)}))
             R.vm.push_call(st, f, [B.cell(field), B.cell(opts)], None, None)
@@ -472,6 +475,8 @@ def k_render_field(R, maxq, props):
                     # is the same whatever the trait lists say
                     want_skip = z3.And(skip, qs[0] != req) if qs else z3.BoolVal(False)
                     claims['C09:skip-attribute-independent-of-trait-options'] = want_skip if 'skip_serializing_if' in merged else z3.Not(want_skip)
+                    # the ID coercion is attached to ID fields whatever the serde path option spells
+                    claims['C09:id-coercion-independent-of-serde-path'] = (ftype == z3.StringVal('ID')) if 'deserialize_with' in merged else (ftype != z3.StringVal('ID'))
                 known = {'rename', 'deserialize_with', 'flatten', 'skip_serializing_if', 'default'}
                 claims['attrs:known-serde-keys'] = z3.BoolVal(set(merged) <= known)
                 renames = [merged['rename']] if 'rename' in merged else []
@@ -534,7 +539,7 @@ def k_render_field(R, maxq, props):
                 if 'default' in merged:
                     claims['C03:default-only-on-nullable'] = z3.BoolVal(code is not None and (code.startswith('O') or code.startswith('BO')))
             env = dict(qs=qs, gname=gname, rname=rname, ftype=ftype, reason=reason, has_g=has_g, dep1=dep1, dep2=dep2, flatten=flatten, boxed=boxed,
-                       skip=skip, strat=strat, has_strat=has_strat, req=req, strategies=strategies, rderives=rderives, has_rd=has_rd)
+                       skip=skip, strat=strat, has_strat=has_strat, req=req, strategies=strategies, rderives=rderives, has_rd=has_rd, serde_spelling=serde_spelling)
             by_prop = {}
             for name, claim in claims.items():
                 pfx = name.split(':')[0]
@@ -566,6 +571,8 @@ def field_model(m, env):
              strategy=(env['strategies'][ev(env['strat']).as_long()] if ev(env['has_strat']).as_long() == 1 else None))
     if 'rderives' in env:
         d['response_derives'] = s(env['rderives']) if ev(env['has_rd']).as_long() == 1 else None
+    if 'serde_spelling' in env:
+        d['serde_path'] = s(env['serde_spelling']).replace(' ', '')
     return d
 
 
